@@ -49,6 +49,7 @@ fn spec_for(prop: &str, tier: &str, seed: u64) -> RunSpec {
         min_nontrivial: 10,
         rayon_threads: vec![1, 2, 1, 4],
         extra_coverage: Map::new(),
+        variant_case_limit: std::collections::BTreeMap::new(),
     };
     let gen_rule = "instances drawn by the seeded generator (8 hostile profiles, unique tag per instance) plus the repository's 3 bundled inputs, each solved by the real server::solve_instance; ";
     match prop {
@@ -81,6 +82,11 @@ fn spec_for(prop: &str, tier: &str, seed: u64) -> RunSpec {
             s.cpu_budget_s = 60.0;
             s.crash_is_violation = true;
             s.rayon_threads = vec![1, 2, 4, 16];
+            if thorough && std::env::var("VERIF_TSAN").map(|v| v == "1").unwrap_or(false) {
+                // supplementary: a reduced workload under ThreadSanitizer (concurrent generation on shared bases)
+                s.variants.push("tsan".to_string());
+                s.variant_case_limit.insert("tsan".to_string(), 400);
+            }
         }
         "C16" => {
             s.rule = "one server::solve_instance call per generated instance (maintenance/depot heavy), hook H2 records the schedules bound after each stage and the optimiser's transitions, hook H1 the search steps; trace checker: start = depot-improved flow solution, search result = end of the step chain, optimised schedule carries T*, final schedule has the search result's activities, T* as cycles (as multisets of cyclic sequences) and end depots following T*, the JSON is the final schedule with T* as vehicleCycles and a truthful objective. non-trivial = distinct instances where the optimiser's cycles differ from the search result's (otherwise a dropped stage is unobservable)".to_string();
